@@ -37,4 +37,17 @@ structure SeriesCall where
   shape : Shape
   deriving Repr
 
+/-- where the sampling rate an analyzer hands to the algorithm layer comes from -/
+inductive FsSrc where
+  | inputRate      -- `<input series>.sampling_rate` (directly, through an alias, or through a method dict written from it)
+  | userOrInput    -- `method.get('Fs', <input series>.sampling_rate)`: the caller's documented override, else the input's rate
+  | other          -- anything else (e.g. recomputed from the interval)
+  deriving DecidableEq, Repr
+
+structure FsBinding where
+  key : String
+  how : String
+  src : FsSrc
+  deriving Repr
+
 end Nitime.C15
